@@ -251,10 +251,14 @@ class Paged(Lane):
 
 def body(chk):
     quick = chk.tier == 'quick'
-    p = (3, 1, True) if quick else tier_param('C16', (4, 2, True))
+    p = (3, 1, True) if quick else tier_param('C16', (4, 1, True))
     run_lane(chk, Paged, p, bounds={'pages': f'1..{p[0]}', 'entries per page': f'0..{p[1]} (incl. an empty first page)', 'cookies': ('1' if p[1] <= 1 else '1..2') + ' symbolic byte(s) each, consecutive pages may return the same cookie; empty on the last page',
                                     'page size': '1..127 symbolic', 'other request controls / search options / other response controls': 'present or absent', 'chaining': 'alone or behind EntriesOnly'},
              selftest=True, need_regions=('pages=1', 'pages=3', 'chained', 'user-paged'))
+    if not quick:
+        p2 = tier_param('C16B', (3, 2, True))
+        run_lane(chk, Paged, p2, bounds={'pages': f'1..{p2[0]}', 'entries per page': f'0..{p2[1]}', 'cookies': '1..2 symbolic bytes each, consecutive pages may return the same cookie; empty on the last page', 'page size': '1..127 symbolic',
+                                         'other request controls / search options / other response controls': 'present or absent', 'chaining': 'alone or behind EntriesOnly'}, selftest=False, need_regions=('pages=3', 'chained'))
     chk.assumptions += [
         'lane B3 with scripted pages: the adapter chain, SearchStream shims, start_inner, op_call and the paging control codec run from MIR; the request channel records every search request and hands its item channel the next scripted page; the driver\'s acknowledgement of a search start is a stub',
         'the filter is a fixed string (grammar: C08); pages/entries/cookies bounded as stated',
